@@ -341,31 +341,34 @@ func hintsCase(c *Case, lean *LeanDriver) Verdict {
 		modelHints, haveModel = ans["hints"]
 	}
 	// the Lean model of newOperator's hint propagation against what the real engine handed to the
-	// storage: function, by/without and grouping labels, as sets (identical selectors share a select)
+	// storage: function, by/without, grouping labels, step and range, as sets (identical selectors
+	// share a select)
 	if haveModel && modelHints != "bad-op" && ref.Kind != "err" {
-		fg := func(fn string, by bool, grouping []string) string {
+		fg := func(fn string, by bool, grouping []string, step, rng string) string {
 			g := append([]string(nil), grouping...)
 			sort.Strings(g)
 			b := "0"
 			if by {
 				b = "1"
 			}
-			return fn + "|" + b + "|" + strings.Join(g, ",")
+			return fn + "|" + b + "|" + strings.Join(g, ",") + "|step=" + step + "|range=" + rng
 		}
 		em := map[string]bool{}
 		for _, r := range st.Selects {
-			em[fg(r.Hints.Func, r.Hints.By, r.Hints.Grouping)] = true
+			em[fg(r.Hints.Func, r.Hints.By, r.Hints.Grouping, fmt.Sprint(r.Hints.Step), fmt.Sprint(r.Hints.Range))] = true
 		}
 		mm := map[string]bool{}
 		if modelHints != "" {
 			for _, h := range strings.Split(modelHints, ";") {
-				p := strings.SplitN(h, "|", 3)
-				if len(p) == 3 {
+				p := strings.Split(h, "|")
+				if len(p) == 5 {
 					var g []string
 					if p[2] != "" {
 						g = strings.Split(p[2], ",")
 					}
-					mm[fg(p[0], p[1] == "1", g)] = true
+					mm[fg(p[0], p[1] == "1", g, p[3], p[4])] = true
+				} else {
+					mm["unparsed:"+h] = true
 				}
 			}
 		}
@@ -378,7 +381,7 @@ func hintsCase(c *Case, lean *LeanDriver) Verdict {
 			return out
 		}
 		if e, m := strings.Join(keys(em), " ; "), strings.Join(keys(mm), " ; "); e != m {
-			v.EngVsModel = fmt.Sprintf("function/grouping hints: engine {%s} vs model {%s}", e, m)
+			v.EngVsModel = fmt.Sprintf("function/grouping/step/range hints: engine {%s} vs model {%s}", e, m)
 		}
 	}
 	pst := NewMemStorage(c.Data())
